@@ -710,6 +710,15 @@ private:
     return res;
   }
 
+  // The Boolean variable x has been overwritten: the fact "if b is
+  // true then x is true" remembered for any Boolean variable b
+  // (including x) talks about the old value of x.
+  void forget_references_to_bool(const variable_t &x) {
+    transform_if(m_bool_to_bools,
+		 [&x](const bool_set_t &s) { return s.at(x);},
+		 [&x](bool_set_t &s) { s -= x;});
+  }
+
   template<class BoolToCstEnv>
   void propagate_assign_bool_var(BoolToCstEnv &env,
 				 const variable_t &x, const variable_t &y,
@@ -1349,9 +1358,7 @@ public:
       m_unchanged_vars -= v;
     }
 
-    transform_if(m_bool_to_bools,
-		 [&v](const bool_set_t &s) { return s.at(v);},
-		 [&v](bool_set_t &s) { s -= v;});
+    forget_references_to_bool(v);
     
     // We should also remove any constraint in
     // m_bool_to_lincsts/m_bool_to_refcsts that involves v.  We don't
@@ -1373,6 +1380,7 @@ public:
 
     m_product.assign_bool_cst(x, cst);
     reduce_num_cst_to_bool(x, cst);
+    forget_references_to_bool(x);
 
     CRAB_LOG("flat-boolean", auto bx = m_product.first().get_bool(x);
              crab::outs() << "*** Reduction non-boolean --> boolean\n "
@@ -1394,6 +1402,7 @@ public:
 
     m_product.assign_bool_ref_cst(x, cst);
     reduce_ref_cst_to_bool(x, cst);
+    forget_references_to_bool(x);
     
     CRAB_LOG("flat-boolean", auto bx = m_product.first().get_bool(x);
              crab::outs() << "*** Reduction non-boolean --> boolean\n "
@@ -1423,6 +1432,7 @@ public:
       // TODO: we don't handle negative booleans in m_bool_to_bools.
       m_bool_to_bools -= x;
     }
+    forget_references_to_bool(x);
 
     CRAB_LOG("flat-boolean",
              crab::outs() << "\tunchanged vars=" << m_unchanged_vars << "\n"
@@ -1475,6 +1485,7 @@ public:
       // TODO: we don't handle or/xor
       m_bool_to_bools -= x;
     }
+    forget_references_to_bool(x);
   }
 
   void assume_bool(const variable_t &x, bool is_negated) override {
@@ -1528,6 +1539,7 @@ public:
 	  // TODO: we don't handle negative booleans in
 	  // m_bool_to_bools so we don't add not(cond)
 	}
+	forget_references_to_bool(lhs);
       }
     }
 
@@ -1611,6 +1623,7 @@ public:
       m_bool_to_lincsts -= dst;
       m_bool_to_refcsts -= dst;
       m_bool_to_bools -= dst;
+      forget_references_to_bool(dst);
     } else if ((op == OP_ZEXT || op == OP_SEXT) &&
                (get_bitwidth(src) == 1 && get_bitwidth(dst) > 1)) {
       // -- bool to int:
